@@ -179,6 +179,26 @@ def positive(case):
         raise Violation(kind, f"got      {got}\nexpected {expected}\n--- text:\n{text}")
     nt = (stats["block"] >= 2 or stats["gapc"] >= 1) and stats["semi"] >= 1 and stats["nl"] >= 1
     classes = ["block-comments:%s" % min(stats["block"], 3), "line-comments:%s" % min(stats["line"], 2)]
+    # the full entry point: a program that is also VALID (references, nesting) must be accepted
+    # by parse_jaqal_string under the same layout, and mean what the reference says
+    if not any(s[0] == "branch" for s in prog["body"]):
+        from ..common import Ref, Invalid, parse, extract, same_meaning, show
+
+        try:
+            want = Ref(prog).validate()
+        except Invalid:
+            want = None
+        if want is not None:
+            st_, c = guard(parse, text, what="parse_jaqal_string")
+            if st_ == "err":
+                raise Violation("rejected-valid-program", f"{c}\n--- text:\n{text}")
+            try:
+                gotm = extract.Extractor(c).meaning()
+            except extract.ExtractError as e:
+                raise Violation("circuit-unresolvable", f"{e}\n--- text:\n{text}")
+            if not same_meaning(want, gotm):
+                raise Violation("circuit-meaning", f"reference {show(want)}\ncircuit {show(gotm)}\n--- text:\n{text}")
+            classes.append("valid-program-built")
     if any(s[0] == "branch" for s in prog["body"]):
         classes.append("branch")
     if stats["bar"]:
